@@ -56,7 +56,8 @@ func c04World() *ref.World {
 	w.Objs["Big"] = big
 	w.Vars["N"] = int64(10)
 	w.Vars["Name"] = "nm"
-	w.JSON["J"] = map[string]interface{}{"n": 10.0, "s": "js", "b": true, "o": map[string]interface{}{"n": 11.0}, "a": []interface{}{10.0, 11.0}}
+	w.JSON["J"] = map[string]interface{}{"n": 10.0, "s": "js", "b": true, "o": map[string]interface{}{"n": 11.0}, "a": []interface{}{10.0, 11.0},
+		"a.b": 12.0, "k[0]": 13.0, "aa": []interface{}{[]interface{}{1.0, 2.0}, []interface{}{3.0}}, "jb": true, "i": 5.0}
 	return w
 }
 
@@ -64,6 +65,7 @@ var c04Dests = []string{
 	"F.I", "F.I8", "F.I16", "F.I32", "F.In", "F.U", "F.U8", "F.U16", "F.U32", "F.Un", "F.F", "F.F32", "F.S", "F.B", "F.T", "F.PI",
 	"F.P.V", "F.P.S", "F.P.Q.V", "F.PArr[0].V", "F.Arr[1]", "F.Arr[F.K]", "F.SArr[0]", `F.M["a"]`, "F.M[F.KS]", `F.MS["a"]`, `F.MP["a"].V`,
 	"F.BI", "F.MK[1]", "F.MK[F.K + 2]", "F.A3[1]", "F.A3[F.K]", `J["n"]`, `J.o["n"]`,
+	`J["a.b"]`, `J["k[0]"]`, "J.aa[1][0]", "J.aa[0][F.K]", "J.jb",
 	"J.n", "J.o.n", "J.a[0]", "J.s", "N", "Name", "F.Grid[0][1]", "F.Grid[F.K][2]", `F.Book["a"]["x"]`, `F.Book[F.KS]["y"]`,
 }
 
